@@ -72,6 +72,29 @@ def semantic_search(facts_spirv, dump, ref, sweep=None):
         if r and f["consts"] != r["consts"]:
             d = [x for x in f["consts"] if x not in r["consts"]] + [x for x in r["consts"] if x not in f["consts"]]
             bad.append({"type": f["name"], "input": d[:4], "what": "declared mask bits differ from the Khronos reference"})
+    # model search: the translated arms themselves (mirrors Model/Spirv.v from_u32)
+    for e in facts_spirv["enums"]:
+        r = refe.get(e["name"])
+        if not r:
+            continue
+        vals = {v for _, v in r["variants"]}
+        names = {n for n, _ in r["variants"]}
+        covered = set()
+        for a in e["arms"]:
+            if a["hi"] - a["lo"] > 100000:
+                bad.append({"type": e["name"], "input": a["lo"], "what": "from_u32 arm %d..=%d is far wider than the declaration" % (a["lo"], a["hi"])})
+                continue
+            for v in range(a["lo"], a["hi"] + 1):
+                if v in covered:
+                    continue
+                covered.add(v)
+                if a["to"] is None and v not in vals:
+                    bad.append({"type": e["name"], "input": v, "what": "from_u32 arm %d..=%d transmutes the undeclared number %d into the enumeration (undefined behaviour; the compiled crate may show anything)" % (a["lo"], a["hi"], v)})
+                if a["to"] is not None and (a["to"] not in names or dict((n, x) for n, x in r["variants"])[a["to"]] != v):
+                    bad.append({"type": e["name"], "input": v, "what": "from_u32 maps %d to %s whose discriminant differs" % (v, a["to"])})
+        for nme, v in r["variants"]:
+            if v not in covered:
+                bad.append({"type": e["name"], "input": v, "what": "declared discriminant of %s not accepted by any from_u32 arm" % nme})
     if sweep is not None:
         for e in sweep["enums"]:
             r = refe.get(e["name"])
@@ -95,53 +118,29 @@ def semantic_search(facts_spirv, dump, ref, sweep=None):
 
 
 def run(rep):
+    import regen
     rep.cov["rule"] = (
         "proof: generic theorems over all n:N + vm_compute side conditions over the data translated from "
         "spirv/autogen_spirv.rs on this run; tie: T-dump probes (every declared value, +-1, range ends, 2^k, "
         "u32::MAX, every name/alias) evaluated by the real crate and by the Coq model inside Coq (dump_*_agree); "
         "a probe is non-trivial when it is accepted by from_u32/from_bits/FromStr"
     )
-    facts = core.run_rs2coq()
-    fails = [f for f in facts["failures"] if f.startswith("spirv/")]
-    ref = load_ref()
-    broken = None
+    p = regen.prepare(release=(rep.tier == "thorough"))
+    facts, dump, ref = p.facts, p.dump_spirv, load_ref()
+    broken = list(p.broken)
+    fails = p.failures(["spirv/"])
     if fails:
-        broken = {"lemma": "rs2coq recogniser (T-src)", "error": "\n".join(fails[:20])}
-    gen_harness.gen_spirv(facts["spirv"])
-    exe, err = core.build_harness(release=False)
-    dump = None
-    if exe is None:
-        broken = broken or {"lemma": "harness build (T-dump call stubs)", "error": err[-3000:]}
-    else:
-        dpath = os.path.join(CACHE, "dump_spirv.json")
-        rc, out, _ = core.run([exe, "dump-spirv", os.path.join(CACHE, "facts.json"), dpath])
-        if rc != 0:
-            broken = broken or {"lemma": "harness dump-spirv", "error": out[-2000:]}
-        else:
-            with open(dpath) as f:
-                dump = json.load(f)
+        broken.insert(0, {"lemma": "rs2coq recogniser (T-src)", "error": "\n".join(fails[:20])})
     sweep = None
-    if rep.tier == "thorough" and exe is not None:
-        rexe, err = core.build_harness(release=True)
-        if rexe:
-            spath = os.path.join(CACHE, "sweep_spirv.json")
-            rc, out, dt = core.run([rexe, "sweep-spirv", spath], timeout=3000)
-            if rc == 0:
-                with open(spath) as f:
-                    sweep = json.load(f)
-                rep.cov["sweep_2_32"] = {"types": len(sweep["enums"]) + len(sweep["flags"]), "wall_s": round(dt, 1)}
-                rep.cov["exhaustive"] = True
-    gen_coq.gen_spirv(facts["spirv"], "SpirvData", "spirv/autogen_spirv.rs via rs2coq")
-    gen_coq.gen_spirv(ref, "RefSpirv", "ref/spirv.json")
-    if dump is not None:
-        gen_coq.gen_spirv_dump(dump, "DumpSpirv")
-    ok, info = (False, broken) if broken else pipeline.proof_stage(rep, PROP)
-    if broken:
-        # still count obligations
-        deps = core.coq_deps("Props/%s.v" % PROP)
-        total, done, detail = core.count_obligations(deps)
-        rep.cov["obligations"], rep.cov["discharged"] = total, 0
-    # correspondence / search (always; it is cheap)
+    if rep.tier == "thorough" and getattr(p, "rexe", None):
+        spath = os.path.join(CACHE, "sweep_spirv.json")
+        rc, out, dt = core.run([p.rexe, "sweep-spirv", spath], timeout=3000)
+        if rc == 0:
+            with open(spath) as f:
+                sweep = json.load(f)
+            rep.cov["sweep_2_32"] = {"types": len(sweep["enums"]) + len(sweep["flags"]), "wall_s": round(dt, 1)}
+            rep.cov["exhaustive"] = True
+    ok, info = pipeline.proof_stage(rep, PROP, broken)
     bad = semantic_search(facts["spirv"], dump, ref, sweep) if dump is not None else []
     if dump is not None:
         ev = sum(len(e["from_u32"]) + len(e["from_str"]) for e in dump["enums"]) + sum(len(f["from_bits"]) for f in dump["flags"])
@@ -163,14 +162,7 @@ def run(rep):
             {"type": dump["enums"][1]["name"], "from_u32": dump["enums"][1]["from_u32"][5:9], "from_str": dump["enums"][1]["from_str"][1:4]},
             {"type": dump["flags"][0]["name"], "from_bits": dump["flags"][0]["from_bits"][-4:]},
         ]
-    for b in bad[:5]:
-        rep.violation("%s: %s (input %s)" % (b.get("type"), b["what"], b.get("input")), b)
-    if not ok and not bad:
-        rep.violation(
-            "obligation `%s` no longer checks and no failing input was found" % (info.get("lemma")),
-            {"broken": info},
-            found_input=False,
-        )
+    pipeline.conclude(rep, ok, info, bad, lambda b: "%s: %s (input %s)" % (b.get("type"), b["what"], b.get("input")))
 
 
 def replay(rep, path):
